@@ -127,6 +127,8 @@ def run_random_pairs(shard, ctx):
 
 def gen_assembly(rng):
     names = [f"ctg{k}" for k in range(rng.randint(1, 4))]
+    if rng.random() < 0.2:
+        names = [n + rng.choice([":1-5000", ":7", "-1-2"]) for n in names]  # names that look like regions themselves
     if rng.random() < 0.3:
         # distinct names that a numeric-aware comparison may take for equal
         names += rng.choice([["ctg_7", "ctg_07"], ["chr1", "chrI"], ["c2", "c02", "c002"], ["s1.1", "s1.01"]])
@@ -244,6 +246,14 @@ def check_scan(ctx, scs, via_cli, scratch, shared=False):
         p = Path(scratch) / "qc.agp"
         with p.open("w") as fh:
             format_agp(Assembly("a", scaffolds=build_scaffolds(scs)), fh)
+        if hash(str(scs)) % 7 == 3 and all(rows and rows[0][0] == "F" for _, rows in scs):
+            # the same assembly given as TPF (written by the reference formatter)
+            from vf.ref import tpf_ref
+
+            p.unlink()
+            p = Path(scratch) / "qc.tpf"
+            p.write_text(tpf_ref.format({"header": [], "scaffolds": scs}))
+            ctx.count("scan:cli-tpf-input")
         # the report does not depend on the output format asked for
         ofmt = [[], ["-f", "STR"], ["-f", "repr"], ["-f", "TPF"], []][hash(str(scs)) % 5]
         if ofmt:
@@ -253,15 +263,15 @@ def check_scan(ctx, scs, via_cli, scratch, shared=False):
             # two input files whose names differ only in the directory (hap1/qc.agp hap2/qc.agp): each is reported
             for sub in ("hap1", "hap2"):
                 (Path(scratch) / sub).mkdir(exist_ok=True)
-                (Path(scratch) / sub / "qc.agp").write_text(p.read_text())
+                (Path(scratch) / sub / p.name).write_text(p.read_text())
             ctx.count("scan:cli-same-stem-in-two-directories")
-            res = CliRunner().invoke(cli, [str(Path(scratch) / "hap1" / "qc.agp"), str(Path(scratch) / "hap2" / "qc.agp"), "--qc-overlaps", *ofmt])
+            res = CliRunner().invoke(cli, [str(Path(scratch) / "hap1" / p.name), str(Path(scratch) / "hap2" / p.name), "--qc-overlaps", *ofmt])
             exp = [(a_, b_) for a_, b_ in exp] * 2
         elif hash(str(scs)) % 2:
             res = CliRunner().invoke(cli, [str(p), "--qc-overlaps", *ofmt])
         else:
             ctx.count("scan:cli-stdin")
-            res = CliRunner().invoke(cli, ["--qc-overlaps", "-i", "AGP", *ofmt], input=p.read_text())
+            res = CliRunner().invoke(cli, ["--qc-overlaps", "-i", "TPF" if p.suffix == ".tpf" else "AGP", *ofmt], input=p.read_text())
         if res.exit_code != 0:
             ctx.violation("qc-cli-failed", f"asm-format --qc-overlaps exit {res.exit_code}: {res.exception!r}", case)
             return
@@ -316,6 +326,11 @@ def check_scan(ctx, scs, via_cli, scratch, shared=False):
 
 def run_scan(shard, ctx):
     scratch = os.environ.get("VERIF_SHARD_SCRATCH", ".")
+    # one crowded assembly per shard: 40 mutually overlapping windows of one contig = 780 pairs, every one reported
+    big = [["crowd", [["F", "ctgC", 1 + 10 * k, 1000 + 10 * k, 1 if k % 3 else -1, []] for k in range(40)]], ["other", [["F", "ctgD", 1, 50, 1, []]]]]
+    check_scan(ctx, big, via_cli=True, scratch=scratch)
+    check_scan(ctx, big, via_cli=False, scratch=scratch)
+    ctx.count("scan:crowded-assembly-with-780-pairs")
     for i in range(shard["n"]):
         rng = rng_for(shard["seed"], "c19s", shard["index"], i)
         scs = gen_assembly(rng)
@@ -356,6 +371,8 @@ def gates(c, tier):
         "scan:in-process-rescan-after-edit": 2000,
         "scan:cli-same-stem-in-two-directories": 300,
         "scan:cli-output-format:STR": 200,
+        "scan:cli-tpf-input": 100,
+        "scan:crowded-assembly-with-780-pairs": 4,
         "scan:cli-output-format:REPR": 200,
         "pairs:overlap": 1000,
         "pairs:abut": 500,
